@@ -6,10 +6,12 @@ import kf_replay
 
 
 def native(workdir):
-    """bounded search on the REAL crates through parse() and generate_types of all six back ends: 14 doc strings over the property's alphabet
+    """bounded search on the REAL crates through parse() and generate_types of all six back ends: 18 doc strings over the property's alphabet
     (plain text, line feed, carriage return, `*/`, `/*`, `//`, triple double / single quotes, backslashes incl. a trailing one, `#`,
-    backtick, `*/ LF .. LF /*`, a docstring-shaped text), each carrying a marker after the dangerous sequence, written as `///` lines,
-    `/** */` block or #[doc = ".."] (38 combinations), attached to 12 documentable positions (struct, field, unit enum and its variants,
+    backtick, `*/ LF .. LF /*`, a docstring-shaped text, quote runs of four and five, a backslash right before a quote run, ragged
+    indentation after a line break), each carrying a marker after the dangerous sequence, written as `///` lines,
+    `/** */` block or #[doc = ".."] (50 combinations), each also in godoc style (the text starts with the item's name, names end in `Id`, Go
+    configured with an acronym list), attached to 12 documentable positions (struct, field, unit enum and its variants,
     algebraic enum, tuple / struct / unit variant, struct-variant field, alias).  The generated text of every language is lexed with that
     language's comment and string rules (nested block comments for Kotlin / Swift / Scala, CR ends a Swift line comment, Python triple-quoted
     strings with escapes): the doc text must be reproduced and no marker may lie outside a comment / docstring."""
